@@ -17,6 +17,8 @@ PAYLOADS = [
     MARK + '"; fn injected() {} //', MARK + "\\", MARK + '\\"', MARK + "{}{", MARK + "\nfn injected() {}\n", MARK + "\r\nx", MARK + "\rfn injected() {}", MARK + "*/ fn injected() {} /*",
     MARK + "é日本", MARK + "'a", MARK + "\\u{41}", MARK + "#\"#", MARK + "\\n", "\t" + MARK + "\t", MARK + "]]>", MARK + "${x}",
 ]
+# lexical forms of numbers that Rust's FromStr accepts or rejects differently from Rust's expression syntax
+NUMERIC_FORMS = ["+1", "007", " 5 ", "-0", "+0", "1e3", "0x10", "1_000", "\u0661\u0662", "--1", "+ 1", "2147483647", "+2147483647", "2147483648", "1.0", ""]
 NAME_PAYLOADS = [MARK + "-9.x", "9" + MARK, MARK + " with space", "_" + MARK, MARK + "é", "-" + MARK + "-", MARK + '"q', MARK + "/*x*/", MARK + ";"]
 
 SCHEMA = """<xs:schema xmlns:xs="http://www.w3.org/2001/XMLSchema" xmlns:tns={uri} targetNamespace={uri} elementFormDefault="qualified">
@@ -92,6 +94,9 @@ def build_cases(root, tier, rng):
         for pos in ("action", "address"):
             for pre in ("urn:", "http://example.com/p?q=", "http://example.com/p#"):
                 add("payload", pos, pre + p, WSDL2, "k.wsdl")
+    for p in NUMERIC_FORMS:
+        for pos in ("facet", "nfacet"):
+            add("numeric-form", pos, p, SCHEMA, "k.xsd")
     for p in NAME_PAYLOADS + PAYLOADS[:6]:
         for pos in ("stname", "ctname", "elname", "atname", "gename"):
             add("name-payload", pos, p, SCHEMA, "k.xsd")
